@@ -58,20 +58,20 @@ def explore_families(mod, tier, seed, tag=""):
         reports, errs = core.run_shards(mod.PROP, fm.HEADER, fm.CASE_TYPE, fm.DRIVER, lits,
                                         shard_size=getattr(fm, "SHARD", 400), tag=tag + fam["name"])
         fn, flists = core.merge_reports(reports, fm.WIDTH)
+        flists = list(flists) + [[] for _ in range(3 - len(flists))]
+        if fam.get("spec_is_model") or getattr(mod, "SPEC_IS_MODEL", False):
+            # the property's predicate for this family is "the observation equals the model" (the family's own
+            # specification, and its known findings, belong to another property)
+            flists[1] = list(flists[0])
+            flists[2] = []
         off = len(cases)
         for i in range(3):
-            if i < fm.WIDTH:
-                lists[i].extend(off + j for j in flists[i])
+            lists[i].extend(off + j for j in flists[i])
         n += fn
         errors += errs
         for c, o in zip(fam["cases"], fam["obs"]):
             cases.append({"family": fam["name"], "case": c})
             obs.append(o)
-    if getattr(mod, "SPEC_IS_MODEL", False):
-        # the property's predicate is "the observation equals the model" (the families' own
-        # specifications, and their known findings, belong to the other properties)
-        lists[1] = list(lists[0])
-        lists[2] = []
     return cases, {"n": n, "lists": lists, "obs": obs, "errors": errors}, meta, 0
 
 
@@ -93,6 +93,32 @@ def classify(mod, cases, ev, findings):
     for i in sorted(bad_model - bad_spec):
         corr_only.append(i)
     return violations, known, corr_only
+
+
+def shrink_case(mod, case, obs, findings, max_rounds=10):
+    """greedy reduction of a failing case: while one of the smaller candidates proposed by the property
+    module (mod.shrink) is still a violation, continue from the smallest of them"""
+    cur, cur_obs = case, obs
+    for _ in range(max_rounds):
+        cands = list(mod.shrink(cur))
+        if not cands:
+            break
+        cobs = _impl(mod, cands)
+        lits = [mod.literal(c, o) for c, o in zip(cands, cobs)]
+        reports, errors = core.run_shards(mod.PROP, mod.HEADER, mod.CASE_TYPE, mod.DRIVER, lits,
+                                          shard_size=getattr(mod, "SHARD", 400), tag="s")
+        if errors:
+            break
+        n, lists = core.merge_reports(reports, mod.WIDTH)
+        ev = {"n": n, "lists": list(lists) + [[] for _ in range(3 - len(lists))], "obs": cobs, "errors": []}
+        viol, _, _ = classify(mod, cands, ev, findings)
+        if not viol:
+            break
+        j = min(viol, key=lambda i: size_of(mod, cands[i]))
+        if size_of(mod, cands[j]) >= size_of(mod, cur):
+            break
+        cur, cur_obs = cands[j], cobs[j]
+    return cur, cur_obs
 
 
 def size_of(mod, case):
@@ -118,9 +144,13 @@ def run(mod, tier, seed):
         return 1
     ex = binfo["extract"] or {}
     used_by = ex.get("used_by", {})
+    # a constant the extractor no longer recognises in the source (e.g. after a refactoring): the model keeps the
+    # value it was written from (the fallback in Generated/Extracted.v) and the tie for that constant is the
+    # correspondence alone - which is therefore run at the thorough tier; not an alarm by itself
+    fallbacks = []
     for name, why in (ex.get("failed") or {}).items():
         if prop in used_by.get(name, []):
-            broken.append({"obligation": "extractor item %s (fail-closed)" % name, "why": why})
+            fallbacks.append({"item": name, "why": why})
     if not binfo["proofs_ok"]:
         if "broken_at" in binfo:
             broken.append({"obligation": "theorem file Properties/%s.v no longer checks" % prop,
@@ -148,7 +178,7 @@ def run(mod, tier, seed):
     escalated = False
     # a broken obligation, or a changed source file of this property (not an alarm by itself), gets the
     # deeper run when the quick exploration found nothing
-    if (broken or relevant_fp) and not violations and eff_tier == "quick" and os.environ.get("VERIF_NO_ESCALATE") != "1":
+    if (broken or relevant_fp or fallbacks) and not violations and eff_tier == "quick" and os.environ.get("VERIF_NO_ESCALATE") != "1":
         escalated = True
         cases2, ev2, meta2, _ = explore(mod, "thorough", seed, tag="x")
         v2, k2, c2 = classify(mod, cases2, ev2, findings)
@@ -168,8 +198,15 @@ def run(mod, tier, seed):
             seen.add(key)
             if len(reported) >= 3:
                 continue
-            rel = core.write_replay(prop, "failing-input", {"case": cases[j], "observed": ev["obs"][j],
-                                                            "described": mod.describe(cases[j], ev["obs"][j]),
+            rcase, robs = cases[j], ev["obs"][j]
+            if hasattr(mod, "shrink") and not hasattr(mod, "families"):
+                try:
+                    rcase, robs = shrink_case(mod, rcase, robs, findings)
+                except Exception:  # shrinking is a convenience: never lose the original failing input
+                    rcase, robs = cases[j], ev["obs"][j]
+            rel = core.write_replay(prop, "failing-input", {"case": rcase, "observed": robs,
+                                                            "described": mod.describe(rcase, robs),
+                                                            "shrunk_from_size": size_of(mod, cases[j]),
                                                             "impl_differs_from_model": j in set(ev["lists"][0]),
                                                             "broken_obligations": broken})
             reported.append(rel)
@@ -221,6 +258,7 @@ def run(mod, tier, seed):
         "theorems": binfo.get("theorems", []),
         "broken_obligations": broken, "escalated_to_thorough": escalated or (eff_tier != tier),
         "fingerprints_changed": fp_changed,
+        "extractor_fallbacks": fallbacks,
         "extract_changed_from_expected": sorted((ex.get("changed_from_expected") or {}).keys()),
         "build_s": binfo.get("build_s"),
     }
